@@ -129,20 +129,48 @@ End Forward.
 (* ---------------------------------------------------------------------------------------- *)
 Definition zero_mac (_ _ : bytes) : bytes := [].
 
+(* ---------------------------------------------------------------------------------------- *)
+(* the code since /repo c9df24c ("do not sign a transfer-encoding header that is not sent")   *)
+(* ---------------------------------------------------------------------------------------- *)
+(* handle_request_with_signature now drops the transfer-encoding header of the head once the
+   collected body is empty, BEFORE it signs (Canon.hyper_wire, agent C04's finding F3d: hyper's
+   client does not write that header for an empty body, so the signed string named a header the
+   host never received).  The exempt branch (convert_request) is unchanged.  [proxy_forward]
+   above is the code before that repair and is kept because Relay / Limit / System are stated
+   over it; the two differ only in that one framing header of an empty-bodied non-exempt request
+   and hence in the string that is signed (HeadersWireProofs). *)
+Section ForwardC9.
+Context (mac : bytes -> bytes -> bytes).
+
+Definition relay_c9 (key_value key_guid : option bytes) (req : request) : fwd :=
+  if should_skip_sig (r_method req) (r_uri req) then Forwarded req
+  else sign_and_forward mac key_value key_guid (hyper_wire req).
+
+Definition proxy_forward_c9 (a : audit) (now : bytes) (key_value key_guid : option bytes)
+           (c : client_request) : fwd :=
+  match add_required_headers (run_as_elevated a) now (of_wire (c_wire c)) with
+  | None => BadGateway
+  | Some hs =>
+      relay_c9 key_value key_guid
+               {| r_method := c_method c; r_uri := c_uri c; r_headers := hs; r_body := c_body c |}
+  end.
+End ForwardC9.
+
 Definition c05_case (is_admin : Z) (now : bytes) (key_value key_guid : option bytes)
            (m path : bytes) (q : option bytes) (wire : list (bytes * bytes)) (body : bytes) :=
   let a := {| a_logon_id := 0; a_process_id := 0; a_is_admin := is_admin;
               a_destination_ipv4 := 0; a_destination_port := 0 |} in
   let u := {| u_path := path; u_query := q |} in
   let c := {| c_method := m; c_uri := u; c_wire := wire; c_body := body |} in
-  match proxy_forward zero_mac a now key_value key_guid c with
+  match proxy_forward_c9 zero_mac a now key_value key_guid c with
   | Forwarded out =>
       Some (r_headers out, is_signed key_value key_guid c,
             (* the string the proxy MACs when it signs: the request with the two required
-               headers in place (HeadersProofs.auth_replaced_when_signed) *)
+               headers in place and, for an empty body, without its transfer-encoding header
+               (HeadersWireProofs.c9_auth_replaced_when_signed) *)
             if is_signed key_value key_guid c then
               match add_required_headers (run_as_elevated a) now (of_wire wire) with
-              | Some hs => as_sig_input m body hs u
+              | Some hs => request_sig_input (hyper_wire {| r_method := m; r_uri := u; r_headers := hs; r_body := body |})
               | None => []
               end
             else [])
